@@ -1,6 +1,6 @@
 """C05 -- re-mastering is a fixpoint.  DESIGN.md section 8.5."""
 from harness import common, sysimg, sysprops
-from harness.props import codecleaf
+from harness.props import codecleaf, vdleaf
 
 MODULE = 'C05'
 THEOREMS = None
@@ -9,6 +9,7 @@ RECIPES = ['exact_fill', 'ptable_boundary', 'ce_gap_exact', 'big_records', 'deep
 
 def oracle(b, report):
     sysimg.oracle_c05(b, report)
+    vdleaf.collect(b)
 
 
 def run(ctx):
@@ -21,6 +22,8 @@ def run(ctx):
                                                        nops=(4, 35) if quick else (10, 100), recipe_cfgs=4 if quick else 30),
                         oracle, max_shrink=6)
     codecleaf.hybrid_fixpoint(ctx)
+    vdleaf.flush_vd(ctx)
+    vdleaf.VDS.clear()
     ctx.cov['rule'] = ('every image of the random histories and recipes (all configurations incl. XA, Rock Ridge 1.09/1.10/1.12, '
                        'Joliet, UDF, El Torito with extra sections, symlinks, hidden entries, hard links) is opened and written '
                        'again, twice; bytes compared except the volume-modification date fields; plus isohybrid MBR/GPT/APM images')
